@@ -435,8 +435,11 @@ pub fn encode_with_dist_header_multi(terms: &[&OwnedTerm]) -> Result<Vec<u8>, En
     }
 
     if atom_set.is_empty() {
+        // `131 68 0`: a header without references; the flag field is absent in that case
         let mut buf = BytesMut::new();
         buf.put_u8(VERSION);
+        buf.put_u8(DIST_HEADER);
+        buf.put_u8(0);
         for term in terms {
             encode_term(&mut buf, term)?;
         }
